@@ -82,21 +82,38 @@ func runC05(c *Ctx) {
 		return
 	}
 	c.Table("tables/bounds.txt")
-	for _, cf := range c.configsFor() {
+	cfgs := c.configsFor()
+	if c.Tier == "thorough" || os.Getenv("VERIF_C05_32") != "" {
+		// a 32-bit configuration: int is 32 bits wide there, so a declared 32-bit size converted to int
+		// can be negative
+		cfgs = append(cfgs, [2]string{"linux", "386"})
+	}
+	for _, cf := range cfgs {
 		p := c.load(cf[0], cf[1])
 		if p == nil {
 			continue
 		}
+		proverWordBits = wordBitsOf(cf[1])
 		a := &a6{c: c, p: p, db: newProverDB(p), rows: rows, pre: map[*ssa.Function][]preCond{}, preDone: map[*ssa.Function]bool{}}
 		a.bounds()
 		a.progress()
 		a.caps()
 		a.recursion()
+		proverWordBits = 64
+	}
+	ran32 := false
+	for _, cf := range cfgs {
+		if wordBitsOf(cf[1]) == 32 {
+			ran32 = true
+		}
 	}
 	for _, r := range rows {
+		if strings.HasSuffix(r.typ, "32") && !ran32 {
+			continue
+		}
 		if !r.used {
 			c.SetConfig("tables")
-			c.Stale("bounds:"+r.typ+":"+r.loc)
+			c.Stale("bounds:" + r.typ + ":" + r.loc)
 		}
 	}
 }
@@ -426,6 +443,14 @@ func (a *a6) bounds() {
 				r.used = true
 				c.Pass(a.ruleName(), okey, pos, "reviewed: "+r.reason)
 				continue
+			}
+			if proverWordBits == 32 {
+				// obligations that are open only where int is 32 bits wide have their own lines
+				if r := findRow(a.rows, rk+"32", okey); r != nil {
+					r.used = true
+					c.Pass(a.ruleName(), okey, pos, "reviewed (32-bit int): "+r.reason)
+					continue
+				}
 			}
 			msg := fmt.Sprintf("cannot prove %s in bounds in %s: no dominating check implies 0 <= lo <= hi <= len", o.kind, FnName(fn))
 			if a.failMsg != nil {
